@@ -59,6 +59,9 @@ type Input struct {
 	WKB    []byte
 	EWKB   []byte
 	Hex    string
+	// HexText: the hex text of the EWKB encoding as a BYTE SLICE - what a text-mode database
+	// connection hands to a Scan method; no decoder accepts it as binary, none may write to it
+	HexText []byte
 	WKT    string
 	JSON   []byte
 	IGC    []byte
@@ -167,7 +170,7 @@ func (in *Input) Snapshot() string {
 	if in.BadT != nil {
 		geomKey(&sb, in.BadT)
 	}
-	fmt.Fprintf(&sb, "|wkb=%x|ewkb=%x|hex=%s|wkt=%s|json=%s|igc=%x|", in.WKB[:cap(in.WKB)], in.EWKB[:cap(in.EWKB)], in.Hex, in.WKT, in.JSON[:cap(in.JSON)], in.IGC[:cap(in.IGC)])
+	fmt.Fprintf(&sb, "|wkb=%x|ewkb=%x|hex=%s|wkt=%s|json=%s|igc=%x|hextext=%x|", in.WKB[:cap(in.WKB)], in.EWKB[:cap(in.EWKB)], in.Hex, in.WKT, in.JSON[:cap(in.JSON)], in.IGC[:cap(in.IGC)], in.HexText[:cap(in.HexText)])
 	for _, c := range in.Coords {
 		fmt.Fprintf(&sb, "c%d/%d=%s|", len(c), cap(c), bitsStr(c[:cap(c)]))
 	}
@@ -237,6 +240,16 @@ func models() []*ref.G {
 			&ref.G{Kind: ref.MultiLineString, Layout: l, C2: [][]ref.C{ref.NewLine(ref.LineString, l, 3, f).C1, {}, ref.NewLine(ref.LineString, l, 2, f).C1}},
 			&ref.G{Kind: ref.MultiPolygon, Layout: l, C3: [][][]ref.C{{ringOf(l, shell, f), ringOf(l, hole, f)}, {}, {ringOf(l, shell2, f)}}},
 		)
+	}
+	// polygons with a ring WITHOUT positions after a ring with positions (end offsets that repeat):
+	// [shell, empty, hole], [shell, empty], and the first of them inside a collection
+	{
+		f := val()
+		shell := [][2]float64{{0.1, 0.2}, {10.3, 0.4}, {10.7, 9.9}, {0.6, 10.1}}
+		hole := [][2]float64{{2.1, 2.2}, {3.3, 2.4}, {3.1, 3.7}}
+		p1 := &ref.G{Kind: ref.Polygon, Layout: geom.XY, C2: [][]ref.C{ringOf(geom.XY, shell, f), {}, ringOf(geom.XY, hole, f)}}
+		p2 := &ref.G{Kind: ref.Polygon, Layout: geom.XYZ, C2: [][]ref.C{ringOf(geom.XYZ, shell, f), {}}}
+		out = append(out, p1, p2, ref.NewCollection(geom.NoLayout, p1.Clone(), ref.NewPoint(geom.XY, true, f)))
 	}
 	// near-collinear and >50-point inputs (orientation fallback, hull reduction)
 	var nc []ref.C
@@ -362,6 +375,7 @@ func InputForModel(name string, m *ref.G) *Input {
 		in.WKB = spareB(ref.EncodeWKB(m, false, false))
 		in.EWKB = spareB(ref.EncodeWKB(m, true, true))
 		in.Hex = fmt.Sprintf("%x", in.EWKB)
+		in.HexText = spareB([]byte(in.Hex))
 	}
 	if wktOK(m) {
 		in.WKT = ref.WriteWKT(m, ref.WKTStyle{})
@@ -822,6 +836,20 @@ func Registry() []Fn {
 			g2, e2 := wkt.Unmarshal(string(mixed))
 			g3, e3 := wkt.Unmarshal(spaced)
 			return in.fp(g1, e1, g2, e2, g3, e3)
+		}},
+		{"binary decoders on hex text and other non-binary bytes", func(in *Input) bool { return in.HexText != nil }, func(in *Input) string {
+			// bytes that are NOT a binary encoding (the hex text of one; its upper-case form is in
+			// in.Hex users' hands): every binary entry point answers (an error, today) without
+			// writing to the caller's slice
+			g1, e1 := ewkb.Unmarshal(in.HexText)
+			g2, e2 := wkb.Unmarshal(in.HexText)
+			var s1 ewkb.LineString
+			e3 := s1.Scan(in.HexText)
+			var s2 wkb.Geom
+			e4 := s2.Scan(in.HexText)
+			var s3 ewkb.Point
+			e5 := s3.Scan(in.HexText)
+			return in.fp(g1, e1 != nil, g2, e2 != nil, e3 != nil, e4 != nil, e5 != nil)
 		}},
 		{"wkt.Unmarshal", func(in *Input) bool { return in.WKT != "" }, func(in *Input) string {
 			g, err := wkt.Unmarshal(in.WKT)
